@@ -610,3 +610,82 @@ Theorem C02_quota_loop_is_the_translated_source :
     count_offspring orgs 0 skim = QuotaLoop.gen_count_offspring (map o_exp orgs) skim.
 Proof. exact QuotaLoopAgree.count_offspring_is_translated. Qed.
 Print Assumptions C02_quota_loop_is_the_translated_source.
+
+(* ============================================================================================ *)
+(* ==== agent-full: C02_full is settled (proofs/FullStatementsC02.v) ========================== *)
+(* C02_full as stated above is FALSE: it says nothing about the innovation environment s_env s     *)
+(* (GInv, records_traits_ok) nor about the activator table (acts_ok).  It is refuted by concrete   *)
+(* states; the corrected statement C02_full' (= C02_full plus exactly these three hypotheses) is   *)
+(* proved.  C02_epoch_succeeds / C02_epoch_succeeds_from_fitness above are its consequences with   *)
+(* the quota hypothesis discharged from Hsum / from the raw fitness values.                        *)
+(* ============================================================================================ *)
+From NeatModel Require FullStatementsC02.
+
+Theorem C02_full_refuted : ~ C02_full.
+Proof. exact FullStatementsC02.epoch_full_refuted. Qed.
+Print Assumptions C02_full_refuted.
+
+(* Witness (b), the one used for C02_full_refuted.  NewPopulation(xorStart, options) after
+   rand.Seed(42), options = baseOptions() of the harness with PopSize 6, CompatThreshold 6,
+   AgeSignificance 1, MutateOnlyProb 1, MutateAddNodeProb 0, MutateAddLinkProb 1, RecurOnlyProb 1,
+   MateOnlyProb 0 (one activator: acts_ok holds); fitness 1..6; then the population's innovation
+   record is given ONE entry, the link innovation NewInnovationForRecurrentLink(4, 4, 99, 0.5, 7, true),
+   whose trait index 7 is outside the three traits every genome has; NextEpoch(generation 1).  Every
+   hypothesis of C02_full holds, the options are sane, and NextEpoch panics with an index out of range
+   (model: GoPanic 2; implementation: "index out of range [7] with length 3" in mutateAddLink, which
+   re-uses the recorded innovation for the new recurrent link 4 -> 4 and indexes g.Traits with the
+   recorded trait number).  With the record emptied the same epoch succeeds.  Such a state is NOT
+   reachable from NewPopulation and NextEpoch alone (the record is empty between epochs and the mutators
+   only store trait indices they drew below len(Traits): C02_mutators_keep_records); it takes a call of
+   the exported Population.StoreInnovation. *)
+Theorem C02_full_needs_environment_hypotheses :
+  exists o gen p x s,
+    Part p /\ Fresh p /\ zlen (p_orgs p) < 2 ^ 31 /\ survivors_ok o /\ survives o p /\ 0 < o_pop_size o /\
+    PrimFloat.eqb (o_compat_thresh o) 0 = false /\
+    (forall p1 sorted best s1, prepare o p s = Ok ((p1, sorted, best), s1) -> sum_exp (p_species p1) = o_pop_size o) /\
+    (forall k y, In k (p_orgs p) -> hget (p_heap p) k = Ok y -> wf (o_genome y)) /\
+    Forall (fun c => 0 <= c < 2 ^ 63) (s_tape s) /\
+    acts_ok o /\
+    (exists i, innovs (s_env s) = [i] /\ i_type i = 2 /\ i_trait i = 7 /\
+               forall k y, In k (p_orgs p) -> hget (p_heap p) k = Ok y -> zlen (traits (o_genome y)) = 3) /\
+    next_epoch o gen p x s = GoPanic 2 /\
+    is_ok (next_epoch o gen p x {| s_tape := s_tape s;
+                                   s_env := {| innovs := []; next_innov := next_innov (s_env s);
+                                               next_node := next_node (s_env s) |} |}) = true.
+Proof. exact FullStatementsC02.epoch_full_needs_environment. Qed.
+Print Assumptions C02_full_needs_environment_hypotheses.
+
+(* Witness (a): the same spawn with NodeActivators = [] (and MutateAddNodeProb 1, MateOnlyProb 0), record
+   empty, fitness 1..6: every hypothesis of C02_full holds and NextEpoch returns error 20 (the
+   implementation: "no node activators registered with NEAT options, please assign at least one to
+   NodeActivators").  This state IS reachable from NewPopulation - with options that register no activator. *)
+Theorem C02_full_needs_activators :
+  exists o gen p x s,
+    Part p /\ Fresh p /\ zlen (p_orgs p) < 2 ^ 31 /\ survivors_ok o /\ survives o p /\ 0 < o_pop_size o /\
+    PrimFloat.eqb (o_compat_thresh o) 0 = false /\
+    (forall p1 sorted best s1, prepare o p s = Ok ((p1, sorted, best), s1) -> sum_exp (p_species p1) = o_pop_size o) /\
+    (forall k y, In k (p_orgs p) -> hget (p_heap p) k = Ok y -> wf (o_genome y)) /\
+    Forall (fun c => 0 <= c < 2 ^ 63) (s_tape s) /\
+    o_activators o = [] /\ innovs (s_env s) = [] /\
+    next_epoch o gen p x s = GoErr 20.
+Proof. exact FullStatementsC02.epoch_full_needs_activators. Qed.
+Print Assumptions C02_full_needs_activators.
+
+(* The corrected full statement: C02_full with the three missing hypotheses added (the registry
+   invariant of C03 for some context C, which makes the genomes consistent with the innovation
+   environment and relatives of one another; recorded trait indices in range; a usable activator
+   table).  All of them are established by NewPopulation from a well-formed genome with sane options
+   and re-established by every epoch (C02_history_succeeds). *)
+Definition C02_full' : Prop := forall C o gen p x s R NR,
+  Part p -> Fresh p -> zlen (p_orgs p) < 2 ^ 31 -> survivors_ok o -> survives o p -> 0 < o_pop_size o ->
+  PrimFloat.eqb (o_compat_thresh o) 0 = false ->
+  (forall p1 sorted best s1, prepare o p s = Ok ((p1, sorted, best), s1) ->
+                             sum_exp (p_species p1) = o_pop_size o) ->
+  (forall k y, In k (p_orgs p) -> hget (p_heap p) k = Ok y -> wf (o_genome y)) ->
+  Forall (fun c => 0 <= c < 2 ^ 63) (s_tape s) ->
+  GInv C p (s_env s) R NR -> records_traits_ok (s_env s) (zlen (c_tshape C)) -> acts_ok o ->
+  (exists r, next_epoch o gen p x s = Ok r) \/ next_epoch o gen p x s = OutOfTape.
+
+Theorem C02_full'_holds : C02_full'.
+Proof. exact FullStatementsC02.epoch_full_corrected_holds. Qed.
+Print Assumptions C02_full'_holds.
